@@ -47,6 +47,12 @@ type c16Case struct {
 	// admits what it likes): Put is recorded and dropped, Get finds nothing. Every lookup is then a cold one that
 	// still answers with a template or an error.
 	Refusing bool `json:"refusing,omitempty"`
+	// DevOpts: how the development mode setting is spelt in the option list (0: DevelopmentMode(dev); 1: InDevelopmentMode()
+	// or nothing; 2 / 3: given twice with contradicting values, the later one counts)
+	DevOpts int `json:"dev_opts,omitempty"`
+	// SecondSet (with RecCache, outside development mode, cache admits): after the history a second Set over the
+	// same Loader and the same Cache object asks for what the first one has remembered
+	SecondSet bool `json:"second_set,omitempty"`
 }
 
 // (indices are part of saved cases: append only) - the last name itself ends in what may be a configured extension
@@ -124,6 +130,8 @@ func genC16(t *rapid.T) c16Case {
 	c.Exts = c15ExtLists[rapid.IntRange(0, len(c15ExtLists)-1).Draw(t, "exts")]
 	c.ForeignCache = c.Dev && c.RecCache && rapid.Bool().Draw(t, "foreignCache")
 	c.Refusing = !c.Dev && c.RecCache && rapid.IntRange(0, 3).Draw(t, "refusingCache") == 0
+	c.DevOpts = rapid.IntRange(0, 3).Draw(t, "devOptionSpelling")
+	c.SecondSet = !c.Dev && c.RecCache && !c.Refusing && rapid.Bool().Draw(t, "secondSetOnTheSameCache")
 	n := rapid.IntRange(2, 20).Draw(t, "nops")
 	lastExec := -1
 	for i := 0; i < n; i++ {
@@ -302,7 +310,23 @@ func (m *c16Model) current(n int) (c16File, bool) {
 func judgeC16(c c16Case) (v core.Verdict) {
 	var trace []traceEv
 	fl := &faultLoader{files: map[string]c16File{}, faults: map[string]string{}, trace: &trace}
-	opts := []jet.Option{jet.WithTemplateNameExtensions(c.Exts), jet.DevelopmentMode(c.Dev)}
+	opts := []jet.Option{jet.WithTemplateNameExtensions(c.Exts)}
+	switch c.DevOpts {
+	case 1:
+		if c.Dev {
+			opts = append(opts, jet.InDevelopmentMode())
+		}
+	case 2:
+		if c.Dev {
+			opts = append(opts, jet.DevelopmentMode(false), jet.InDevelopmentMode())
+		} else {
+			opts = append(opts, jet.InDevelopmentMode(), jet.DevelopmentMode(false))
+		}
+	case 3:
+		opts = append(opts, jet.DevelopmentMode(!c.Dev), jet.DevelopmentMode(c.Dev))
+	default:
+		opts = append(opts, jet.DevelopmentMode(c.Dev))
+	}
 	var rc *recCache
 	if c.RecCache {
 		rc = &recCache{mu: new(sync.Mutex), m: map[string]*jet.Template{}, trace: &trace, refuse: c.Refusing}
@@ -638,6 +662,29 @@ func judgeC16(c c16Case) (v core.Verdict) {
 			}
 		}
 	}
+	if c.SecondSet {
+		// what one Set has remembered in a Cache it shares is remembered: a second Set over the same Loader and Cache
+		// finds it there, and the first one still finds it afterwards (neither touches the loader)
+		s2 := jet.NewSet(fl, opts...)
+		for n, name := range c16Names {
+			if m.status[n] != stCached {
+				continue
+			}
+			v.Label("second-set-asks-for-a-remembered-name")
+			for round, set := range []*jet.Set{s2, s, s2} {
+				trace = trace[:0]
+				t, o := jetrun.Get(set, name)
+				if o.Panicked || o.Err != nil || t != m.ptr[n] {
+					v.Failf("%s; then lookup %d of %s through the Sets sharing the Cache: err=%v identical=%v", hist(len(c.Ops)-1), round, name, o.Err, t == m.ptr[n])
+					return
+				}
+				if le := loaderEvents(); len(le) > 0 || puts() > 0 {
+					v.Failf("%s; then lookup %d of %s through the Sets sharing the Cache touched the loader / stored again: %v", hist(len(c.Ops)-1), round, name, trace)
+					return
+				}
+			}
+		}
+	}
 	three := false
 	for _, g := range gets {
 		if g >= 3 {
@@ -671,7 +718,7 @@ func (m *c16Model) markIncludes(n, depth int) {
 
 func TestC16(t *testing.T) {
 	core.Run(t, "C16",
-		"histories (2-20 steps) of loader edits (set/delete of name+ext with text/unparsable/extends/include/includeIfExists content), injected loader faults (Open fails, reader fails midway) and repairs, GetTemplate, Set.Parse with extends/import (absolute and relative names; also under the very name of the template it extends), Execute, Execute of a template object kept from an earlier lookup, over 7 names (two pairs differing in case only); configurations development mode x default/recording Cache (also one that admits nothing: Put recorded and dropped) x 8 extension lists (dotted and dotless); oracle = model of what must/may be remembered asserted on Loader/Cache traces and pointer identity; non-trivial = edit after load, fault-then-repair-then-lookup, or the same name requested >=3 times",
+		"histories (2-20 steps) of loader edits (set/delete of name+ext with text/unparsable/extends/include/includeIfExists content), injected loader faults (Open fails, reader fails midway) and repairs, GetTemplate, Set.Parse with extends/import (absolute and relative names; also under the very name of the template it extends), Execute, Execute of a template object kept from an earlier lookup, over 7 names (two pairs differing in case only); configurations development mode x default/recording Cache (also one that admits nothing: Put recorded and dropped) x 8 extension lists (dotted and dotless); also: four spellings of the development mode option (DevelopmentMode(b), InDevelopmentMode() or nothing, and two contradicting ones of which the later counts); a second Set over the same Loader and Cache object asking for what the first one remembered; oracle = model of what must/may be remembered asserted on Loader/Cache traces and pointer identity; non-trivial = edit after load, fault-then-repair-then-lookup, or the same name requested >=3 times",
 		genC16, judgeC16)
 }
 
